@@ -213,8 +213,14 @@ func c03Profile(variant string) func(c *sim.RunCtx) {
 		for _, k := range ks {
 			c.T = &sim.Tapes{Plan: sim.ReplayTape("plan", planVals), Sched: sim.ReplayTape("sched", schedVals), Fault: sim.ReplayTape("fault", faultVals), Crash: orig.Crash}
 			sk := setup()
-			c.Note("shutdown at step %d", k)
-			lt := runLifetime(c, sk.pp, sk.m, &lifetimeOpts{proc: 1, model: sk.model, shutdownAt: k,
+			// a third of the shutdowns meet transient failures of the data sync
+			// and/or of the state write inside the commit they perform
+			sf, df := 0, 0
+			if orig.Crash.Chance(1, 3) {
+				sf, df = orig.Crash.Choose(3), []int{0, 1, 2, 5}[orig.Crash.Choose(4)]
+			}
+			c.Note("shutdown at step %d (forced failures: %d syncs, %d directory operations)", k, sf, df)
+			lt := runLifetime(c, sk.pp, sk.m, &lifetimeOpts{proc: 1, model: sk.model, shutdownAt: k, shutdownSyncFails: sf, shutdownDirFails: df,
 				script: func(lt *lifetime) {
 					lt.runClients(sk.pp.clients, 1)
 					e := lt.w.e
@@ -222,6 +228,7 @@ func c03Profile(variant string) func(c *sim.RunCtx) {
 						// all clients finished before step k: request it now
 						e.shutdownSeq = lt.w.s.Steps
 						c.Count("fault_graceful_shutdown", 1)
+						lt.armShutdownFaults(sk.m)
 						e.group.cancel()
 					}
 					lt.w.s.WaitUntil("syncer routine returned", func() bool { return e.routineReturned })
